@@ -310,6 +310,34 @@ theorem code_cookie_rule (c : context) (n : Bytes) :
     (Cookie c n).1 = accessRule (requestCookie c.request.cookieLines n) unescapeOrRaw none [] := by
   rw [(cookie_refines c n).1, Access.cookie_rule]
 
+/-! ### `SetCookie`: the write side of the cookie round trip -/
+
+/-- "Set-Cookie", as bytes -/
+def setCookieKey : Bytes := [83, 101, 116, 45, 67, 111, 111, 107, 105, 101]
+
+/-- `SetCookie(cookie)` makes exactly one call on the response writer: `Header().Add("Set-Cookie", line)` with the line
+Model/Access calls `setCookieHeader name value` — the value query-escaped, then printed by `Cookie.String()` — and
+touches nothing else -/
+theorem setCookie_refines (c : context) (ck : Lib.Cookie) :
+    (SetCookie c ck).2 = { c with responseWriter :=
+        (Env.record c.responseWriter ("Header.Add", [Arg.bytes setCookieKey, Arg.bytes (setCookieHeader ck.name ck.value)])) } := by
+  simp [SetCookie, envCall_responseWriter, Env.call, Env.record, setCookieKey, setCookieHeader, Lib.Cookie_String,
+    Lib.Cookie_setValue, Lib.Cookie_Value, Lib.url_QueryEscape]
+
+/-- the header line a `SetCookie` call added, as the user agent sees it -/
+def lastSetCookie (c : context) : Bytes := ((c.responseWriter.trace.getLast?.map (·.2)).getD []).getLast?.map Arg.toBytes |>.getD []
+
+/-- THE ROUND TRIP, from the code's own bodies: what `SetCookie` wrote (`setCookie_refines`), echoed by the user agent,
+is what `Cookie(name)` reads on the next request (`cookie_refines`) — byte for byte, for every value -/
+theorem code_cookie_roundtrip (c c' : context) (n s : Bytes) (hn : cookieNameValid n = true)
+    (hnext : c'.request.cookieLines = [clientEcho (lastSetCookie (SetCookie c { name := n, value := s }).2)]) :
+    (Cookie c' n).1 = s := by
+  rw [(cookie_refines c' n).1, hnext, setCookie_refines]
+  simp only [lastSetCookie, Env.record, List.getLast?_append, List.getLast?_singleton, Option.map_some, Option.getD_some,
+    Option.some_or]
+  simp only [List.getLast?, List.getLast, Option.map_some, Option.getD_some, Arg.toBytes_bytes]
+  exact cookie_roundtrip n hn s
+
 /-- reading request data changes nothing: every translated accessor returns the context it was given -/
 theorem code_accessors_pure (c : context) (n : Bytes) (ds : List Bytes) (db : List Bool) (di : List Int)
     (dl : List (List Bytes)) :
